@@ -17,7 +17,8 @@ EXPLANATION = (
     " ADDED LATER: R3-DECLARATIONS also: build_header tests every converted node (no hand-written index that jumps)."
     " ROUND 8: R4-NODE-IDS-FRESH: every node id a ParseBuffer method hands out is created by that call or passed in by the caller, never read from the buffer's own state (the header builder rebases ids by subtraction)."
     " ROUND 9: R5-HEADER-ALWAYS-CONVERTED: on the MIR every return of build_header is dominated by the call of build_header_nodes."
-    " ROUND 10: R3-DECLARATIONS 'declarations stay in scan order': only push is applied to the list that becomes the header's declarations.")
+    " ROUND 10: R3-DECLARATIONS 'declarations stay in scan order': only push is applied to the list that becomes the header's declarations."
+    " ROUND 11: R3-SKIP-COUNT 'the index jumps to the end that was counted': in the StartPrivateZone arm the local assigned to the index has one definition.")
 
 PT = "delta::parser::parse_tree::"
 PN = "delta::parser::parse_node::ParseNode"
@@ -251,6 +252,10 @@ def r3_build(run, F):
     for n in walk(b["hir"]):
         if n.get("k") == "AssignOp" and hirq.unwrap_trivial(n["lhs"]).get("lid") == skip_lid and skip_lid is not None and n.get("op") in ("AddAssign", "Add"):
             r = hirq.unwrap_trivial(n["rhs"])
+            if r.get("k") == "Path" and r.get("rk") == "Local":      # `let zone_len = end + 1 - i; counter += zone_len;`
+                lets_ = [x for x in walk(b["hir"]) if x.get("k") == "Let" and hirq.strip_ref(x["pat"]).get("lid") == r.get("lid") and isinstance(x.get("init"), dict)]
+                if len(lets_) == 1:
+                    r = hirq.unwrap_trivial(lets_[0]["init"])
             if r.get("k") == "Binary" and r["op"] == "Sub" and hirq.unwrap_trivial(r["rhs"]).get("lid") in idx_lids:
                 l = hirq.unwrap_trivial(r["lhs"])
                 if l.get("k") == "Binary" and l["op"] == "Add" and hirq.unwrap_trivial(l["rhs"]).get("v") == 1:
